@@ -10,6 +10,11 @@ CHECKS = {
     technique="TLA+ module TypeClass.tla: abstract formula-building stack machine (TLC fixpoint, all depths) + exhaustive concrete trees to depth 2 replayed as guards and invariants through the real type checker",
     text="TLC checks accepted=>convex and conjunction completeness on the transcription of typechecker.cpp's rules over an abstract domain that covers formulas of every depth; every tree to depth 2 is rendered into a model and the real verdict is compared with the property's Convex predicate (violation) and with the transcription (drift note).",
     note="Trusts TLC, the Convex definition written from the statement, and the python renderer; replay bound depth 2 (75k trees x 2 roles quick, 620k x 2 thorough); deeper formulas only through the abstract machine."),
+ "C14": dict(
+    category="model_checking", design_ref="DESIGN.md section 5 (C14), 2.6",
+    technique="TLA+ module SymTyping.tla (transcribed typing rules over an operand-type universe; Sym evaluated by TLC on all ordered pairs); every case replayed in both operand orders through TypeChecker::checkExpression",
+    text="TLC evaluates Rule(op,a,b)=Rule(op,b,a) for 11 commutative operators, inline-if and reference-parameter compatibility over 17 operand type classes and exports all cases; the real checker's acceptance and result kind are compared between the two operand orders (the property) and with the transcription (drift note).",
+    note="Function-shaped module: TLC's role is exhaustive evaluation over the finite universe, not state exploration (states = exported cases). Trusts the scaffold declarations in checks/c14.py; const-int parameters have no default range (documented drift)."),
 }
 NOT_APPLICABLE = {}
 PENDING_REASON = "check not built yet (work in progress; see DESIGN.md section 5 for the plan)"
